@@ -18,7 +18,7 @@ from fractions import Fraction
 
 import z3
 
-from . import theory
+from . import seqs, theory
 from .source import ClassInfo, FunctionInfo, ModuleInfo, SourceIndex
 from .types import TypeParser
 from .values import (BoundBuiltin, ClassV, EnumName, EnumV, ExcV, ExtV, FlagV, FuncV, InterpError,
@@ -394,6 +394,8 @@ class Path:
             return a
         if isinstance(a, Opaque) and isinstance(b, Opaque):
             return a
+        if isinstance(a, seqs.KINDS) or isinstance(b, seqs.KINDS):
+            return seqs.ite_value(self, cond, a, b)
         raise MergeAbort()
 
     # --------------------------------------------------------------- force
@@ -407,6 +409,9 @@ class Path:
 
     def fresh(self, typ, name: str):
         k = typ[0]
+        r = seqs.fresh_hook(self, typ, name)
+        if r is not seqs.NOT_HANDLED:
+            return r
         if k == 'int':
             return z3.Int(name)
         if k == 'bool':
@@ -686,6 +691,8 @@ class Path:
         return self.getitem(v, k)
 
     def getitem(self, v, k):
+        if isinstance(v, seqs.KINDS):
+            return seqs.getitem(self, v, k)
         if isinstance(v, (tuple, list, str)):
             if is_z3(k):
                 k = simp(k)
@@ -722,6 +729,8 @@ class Path:
     def ev_Call(self, node, fr):
         # super().__init__(...)
         fnode = node.func
+        if seqs.is_message_join(node):
+            return Opaque('str')
         args = []
         for a in node.args:
             if isinstance(a, ast.Starred):
@@ -827,6 +836,8 @@ class Path:
             return True
         if isinstance(v, SymFloat):
             raise Unsupported('truthiness of symbolic float')
+        if isinstance(v, seqs.KINDS):
+            return seqs.truthy(self, v)
         raise Unsupported(f'truthiness of {v!r}')
 
     def binop(self, op, a, b, node=None):
@@ -846,6 +857,8 @@ class Path:
             ta = a if isinstance(a, tuple) else (a,)
             tb = b if isinstance(b, tuple) else (b,)
             return ta + tb
+        if isinstance(a, Opaque) or isinstance(b, Opaque):
+            return seqs.opaque_binop(op, a, b)
         conc = not is_z3(a) and not is_z3(b)
         if conc and not isinstance(a, SymFloat) and not isinstance(b, SymFloat):
             return self.binop_concrete(op, a, b)
@@ -1132,6 +1145,8 @@ class Path:
     def identical(self, a, b):
         if a is None or b is None:
             return a is None and b is None
+        if isinstance(a, seqs.KINDS) or isinstance(b, seqs.KINDS):
+            return seqs.identical(self, a, b)
         if isinstance(a, SObj) or isinstance(b, SObj):
             return a is b
         if is_boollike(a) and is_boollike(b):
@@ -1151,6 +1166,8 @@ class Path:
     def equal(self, a, b):
         if a is None or b is None:
             return a is None and b is None
+        if isinstance(a, seqs.KINDS) or isinstance(b, seqs.KINDS):
+            return seqs.equal(self, a, b)
         if isinstance(a, SObj) or isinstance(b, SObj):
             NI = ExtV('builtins.NotImplemented')
             if isinstance(a, SObj):
@@ -1223,6 +1240,8 @@ class Path:
         return False
 
     def contains(self, container, item):
+        if isinstance(container, seqs.KINDS):
+            return seqs.contains(self, container, item)
         if isinstance(container, (tuple, list)):
             rs = [self.equal(x, item) for x in container]
             if any(r is True for r in rs):
@@ -1248,6 +1267,8 @@ class Path:
     def getattr(self, v, attr: str):
         if isinstance(v, Lazy):
             raise InterpError('unforced lazy value')
+        if isinstance(v, seqs.KINDS):
+            return seqs.getattr_hook(self, v, attr)
         if isinstance(v, SObj):
             if attr in v.fields:
                 x = v.fields[attr]
@@ -1332,6 +1353,8 @@ class Path:
                 return 1
             if attr == 'real':
                 return as_int(v)
+            if not hasattr(int, attr):
+                raise SymRaise(mk_exc('AttributeError'), f'int.{attr}')
         if isinstance(v, Fraction):
             if attr in ('numerator', 'denominator'):
                 return getattr(v, attr)
@@ -1425,6 +1448,9 @@ class Path:
                 bases.append(b)
                 bases.extend(exc_bases(b))
             return ExcV(ci.name, tuple(bases), tuple(args))
+        r = seqs.instantiate_hook(self, ci, args, kwargs)
+        if r is not seqs.NOT_HANDLED:
+            return r
         dc = self._dataclass_fields(ci)
         obj = SObj(ci, {})
         self.new_dict(obj.fields)
@@ -1526,6 +1552,10 @@ class Path:
         args = list(args)
         if f.self_obj is not None:
             args = [f.self_obj] + args
+        if info.node.decorator_list and not force_inline:
+            r = seqs.call_uf(self, f if f.self_obj is None else FuncV(info), args, kwargs)
+            if r is not seqs.NOT_HANDLED:
+                return r
         if not force_inline:
             c = self.ex.contract_for(info)
             if c is not None:
@@ -1690,6 +1720,8 @@ class Path:
             return list(v)
         if isinstance(v, ClassV) and self.index.is_enum(v.info):
             return [EnumV(v.info, i) for i in range(len(self.index.enum_members(v.info)))]
+        if isinstance(v, seqs.KINDS):
+            return seqs.iterate_hook(self, v)
         raise Unsupported(f'iteration over {v!r}')
 
     def unhash(self, k):
@@ -1791,6 +1823,8 @@ class Path:
 
     def ex_For(self, st, fr):
         it = self.ev(st.iter, fr)
+        if isinstance(it, seqs.SymSeq) or (isinstance(it, seqs.SymRange) and not isinstance(it.length(), int)):
+            return seqs.loop_rule(self, st, it, fr)
         items = self.iterate(it)
         broke = False
         for item in items:
@@ -1806,6 +1840,8 @@ class Path:
             self.exec_block(st.orelse, fr)
 
     def ex_While(self, st, fr):
+        if seqs.has_invariant(self, st, fr):
+            return seqs.loop_rule(self, st, None, fr)
         n = 0
         while True:
             c = self.truthy(self.ev(st.test, fr))
@@ -1885,6 +1921,8 @@ class Path:
                 return True
             return simp(z3.And(rs))
         if isinstance(pat, ast.MatchClass):
+            if isinstance(v, seqs.SymADT):
+                return seqs.match_class(self, pat, v, binds, fr)
             t = self.ev(pat.cls, fr)
             if not self.ex.intrinsics.isinstance(self, v, t):
                 return False
